@@ -1,30 +1,26 @@
 /-
-  Completeness of the stack AIR on honest rows: operations that can fail or whose result is not a
-  polynomial of the operands (see `Props/C03Air.lean`).
+  Completeness of the stack AIR on honest rows: operations that can fail, and operations whose
+  results come from memory, the advice provider or the hasher (the stack AIR pins the cells they leave
+  alone; see `Props/C03Air.lean`).
 -/
 import Miden.Lemmas.HonestAir2
 namespace Miden.C03
 open Miden Miden.Air Miden.Vm
 
+set_option maxHeartbeats 1000000 in
+theorem honest_mstore (vm vm' : Vm) (hl : 16 ≤ vm.stack.length) (h : vm.step .mstore = .ok vm') :
+    HonestHolds vm vm' .mstore := by honest_tac_addr x0
+
+set_option maxHeartbeats 1000000 in
+theorem honest_mstorew (vm vm' : Vm) (hl : 16 ≤ vm.stack.length) (h : vm.step .mstorew = .ok vm') :
+    HonestHolds vm vm' .mstorew := by honest_tac_addr x0
+
+set_option maxHeartbeats 1000000 in
 theorem honest_mstream (vm vm' : Vm) (hl : 16 ≤ vm.stack.length) (h : vm.step .mstream = .ok vm') :
-    HonestHolds vm vm' .mstream := by honest_tac_split
+    HonestHolds vm vm' .mstream := by honest_tac_addr x12
 
+set_option maxHeartbeats 1000000 in
 theorem honest_pipe (vm vm' : Vm) (hl : 16 ≤ vm.stack.length) (h : vm.step .pipe = .ok vm') :
-    HonestHolds vm vm' .pipe := by honest_tac_split
-
-theorem honest_caller (vm vm' : Vm) (hl : 16 ≤ vm.stack.length) (h : vm.step .caller = .ok vm') :
-    HonestHolds vm vm' .caller := by honest_tac_split
-
-theorem honest_u32and (vm vm' : Vm) (hl : 16 ≤ vm.stack.length) (h : vm.step .u32and = .ok vm') :
-    HonestHolds vm vm' .u32and := by honest_tac_split
-
-theorem honest_u32xor (vm vm' : Vm) (hl : 16 ≤ vm.stack.length) (h : vm.step .u32xor = .ok vm') :
-    HonestHolds vm vm' .u32xor := by honest_tac_split
-
-theorem honest_mpverify (vm vm' : Vm) (hl : 16 ≤ vm.stack.length) (h : vm.step .mpverify = .ok vm') :
-    HonestHolds vm vm' .mpverify := by honest_tac_split
-
-theorem honest_mrupdate (vm vm' : Vm) (hl : 16 ≤ vm.stack.length) (h : vm.step .mrupdate = .ok vm') :
-    HonestHolds vm vm' .mrupdate := by honest_tac_split
+    HonestHolds vm vm' .pipe := by honest_tac_addr x12
 
 end Miden.C03
